@@ -125,6 +125,8 @@ fn junk(kind: &str, entry: &str) -> Vec<Vec<u8>> {
         ("nest_arrays", "event") => vec![ev_with(&format!("\"tags\":[],\"x\":{}{}", rep("[", 5000), rep("]", 5000))), ev_with(&format!("\"tags\":{}", rep("[", 5000)))],
         ("nest_arrays", "filter") => vec![format!("{{\"x\":{}{}}}", rep("[", 5000), rep("]", 5000)).into_bytes(), format!("{{\"#e\":{}", rep("[", 5000)).into_bytes()],
         ("nest_arrays", "tags") => vec![rep("[", 5000).into_bytes(), format!("{}{}", rep("[", 3000), rep("]", 3000)).into_bytes()],
+        ("nest_deep", "event") => vec![ev_with(&format!("\"tags\":[],\"x\":{}", rep("[", 400000))), ev_with(&format!("\"tags\":[],\"x\":{}", rep("{\"a\":", 200000)))],
+        ("nest_deep", "filter") => vec![format!("{{\"x\":{}", rep("[", 400000)).into_bytes(), format!("{{\"x\":{}", rep("{\"a\":", 200000)).into_bytes()],
         ("nest_objects", "event") => vec![ev_with(&format!("\"tags\":[],\"x\":{}{}", rep("{\"a\":", 3000), rep("}", 3000)))],
         ("nest_objects", "filter") => vec![format!("{{\"x\":{}1{}}}", rep("{\"a\":", 3000), rep("}", 3000)).into_bytes()],
         ("digits_20", "event") => vec![
@@ -466,6 +468,34 @@ fn inputs(entry: &str, op: &str, cls: &str, stride: usize) -> Vec<(usize, String
                             v[p] = b;
                             out.push((bi, format!("subst:{}:{:02x}", p, b), v));
                         }
+                    }
+                }
+            }
+            "subst2" => {
+                // seed-free but spread: pairs (p, p + gap) for a few gaps
+                for gap in [1usize, 2, 7, 33, 65] {
+                    for p in (0..base.len().saturating_sub(gap)).step_by(stride.max(1) * 3) {
+                        for b in class_bytes(cls).into_iter().take(2) {
+                            let mut v = base.clone();
+                            v[p] = b;
+                            v[p + gap] = b;
+                            out.push((bi, format!("subst2:{}:{}:{:02x}", p, p + gap, b), v));
+                        }
+                    }
+                }
+            }
+            "splice" => {
+                let n = base.len();
+                for w in [3usize, 9, 40] {
+                    if n <= w * 2 {
+                        continue;
+                    }
+                    for dst in (0..n - w).step_by(5) {
+                        let src = (dst * 7 + 13) % (n - w);
+                        let mut v = base.clone();
+                        let chunk: Vec<u8> = base[src..src + w].to_vec();
+                        v[dst..dst + w].copy_from_slice(&chunk);
+                        out.push((bi, format!("splice:{}<-{}x{}", dst, src, w), v));
                     }
                 }
             }
